@@ -81,6 +81,10 @@ def hom_case(draw):
     d = draw(st.integers(2, 5))
     n = draw(st.sampled_from([1, 2, 2, 3, 3]))
     sizes = [n] * d
+    if n >= 2 and draw(st.sampled_from([False, False, True])):
+        # the same reactions on every cell / bond, but cells of different capacity ("equal or different cell sizes, homogeneous
+        # shortcut included"): all reaction states lie inside the smallest cell
+        sizes = [draw(st.sampled_from([n, n, n + 1, n + 2])) for _ in range(d)]
     cyclic = draw(st.booleans())
     ns = draw(st.integers(0, 3))
     single = [[draw(st.integers(0, n - 1)), draw(st.integers(0, n - 1)), draw(st.sampled_from([0.1, 1.0, 2.5]))] for _ in range(ns)]
@@ -214,6 +218,8 @@ def body_hom(case):
           'second call with the same argument lists')
     if not single or not two:
         lab.add('empty_list')
+    if len(set(sizes)) > 1:
+        lab.add('hom_different_cell_sizes')
     return lab
 
 
